@@ -10,7 +10,7 @@ Writes /verif/seeded/<name>/{patch.diff,demo.py,meta.json}.  The worktree is rem
 import json, os, shutil, subprocess, sys, tempfile, xml.etree.ElementTree as ET
 
 name, patch, demo, prop = sys.argv[1:5]
-checks = sys.argv[5:] or [prop]
+checks = [prop] + [c for c in sys.argv[5:] if c != prop]
 budget = os.environ.get("SEED_BUDGET", "90")
 out = f"/verif/seeded/{name}"
 os.makedirs(out, exist_ok=True)
@@ -46,6 +46,20 @@ try:
         except Exception as exc:  # noqa: BLE001
             meta["suite_error"] = str(exc)
         missing = sorted(set(base["stable_pass"]) - passed)
+        if 0 < len(missing) <= 5:
+            # several suites run concurrently on this machine (ray-based tests are load sensitive): retry the few
+            # missing tests on their own before judging
+            still = []
+            for tid in missing:
+                mod, _, rest = tid.partition("::")
+                cls_path = mod.split(".")
+                node = "/".join(cls_path[:-1] if cls_path[-1][:1].isupper() else cls_path) + ".py"
+                node += ("::" + cls_path[-1] if cls_path[-1][:1].isupper() else "") + "::" + rest
+                p2 = sh(f"cd {wt} && {env} /venv/bin/python -m pytest -q -p no:cacheprovider --timeout=900 '{node}'")
+                if p2.returncode != 0:
+                    still.append(tid)
+            meta["suite_retried"] = missing
+            missing = still
         meta["suite_passes_with_change"] = not missing
         meta["suite_missing"] = missing[:10]
         p = sh(f"cd {wt} && {env} timeout 600 /venv/bin/python {os.path.abspath(demo)}")
